@@ -29,18 +29,14 @@ Note(b, rs) == IF rs = <<>> THEN b
                ELSE IF \E i \in 1..Len(b) : b[i].sig = rs[1].sig THEN b
                ELSE IF Len(b) < 60 THEN Append(b, rs[1]) ELSE b
 
-\* one observation e (the i-th of its scenario) against accumulator a
-One(fsm, e, i, a) ==
-  LET \* ---- Impl layer
-      r  == IF fsm THEN FsmImplStep(a.impl, e.k, e.d, a.prop.sme) ELSE OptImplStep(a.impl, e)
-      agree == /\ e.res = (IF r[1] THEN "acc" ELSE "rej")
+\* one observation e (the i-th of its scenario) against accumulator a; r = the Impl layer's prediction,
+\* j = the Prop layer's judgement (both passed in as values: TLC re-evaluates LET definitions at every use)
+Body(fsm, e, i, a, r, j, cl) ==
+  LET agree == /\ e.res = (IF r[1] THEN "acc" ELSE "rej")
                /\ e.det
                /\ (fsm => (e.state = r[2].st /\ (e.dir = 2 \/ e.dir = r[2].dir)))
       dr == [sig |-> <<(IF fsm THEN "fsm" ELSE "opt"), (IF fsm THEN a.impl.st ELSE "-"), (IF fsm THEN e.k ELSE "op"), e.res>>,
              at |-> i, want |-> (IF r[1] THEN "acc" ELSE "rej"), wantstate |-> (IF fsm THEN r[2].st ELSE ""), got |-> e.res]
-      \* ---- Prop layer
-      j  == IF fsm THEN FsmJudge(a.prop, e) ELSE OptJudge(a.prop, e)
-      cl == IF fsm THEN FsmClass(a.prop, e.k, e.d) ELSE OptClass(a.prop, e)
       sig == IF fsm THEN <<"fsm", j[1], a.prop.ph, e.k, FsmRel(a.prop, e.d), a.prop.sme>>
              ELSE <<"opt", j[1], OptCase(a.prop, e), (IF e.syn THEN "syn" ELSE "seg"), "", FALSE>>
       br == [sig |-> sig, at |-> i, what |-> sig[1], reason |-> sig[2], ph |-> sig[3], k |-> sig[4], rel |-> sig[5],
@@ -51,6 +47,12 @@ One(fsm, e, i, a) ==
   IN IF a.skip THEN a1
      ELSE IF j[1] = "ok" THEN [a1 EXCEPT !.prop = j[2], ![cl] = @ + 1]
      ELSE [a1 EXCEPT !.skip = TRUE, !.bad = <<br>>, ![cl] = @ + 1]
+
+One(fsm, e, i, a) ==
+  CHOOSE x \in {Body(fsm, e, i, a, r, j, cl) :
+                   r \in {IF fsm THEN FsmImplStep(a.impl, e.k, e.d, a.prop.sme) ELSE OptImplStep(a.impl, e)},
+                   j \in {IF fsm THEN FsmJudge(a.prop, e) ELSE OptJudge(a.prop, e)},
+                   cl \in {IF fsm THEN FsmClass(a.prop, e.k, e.d) ELSE OptClass(a.prop, e)}} : TRUE
 
 RECURSIVE Run(_, _, _, _)
 Run(fsm, ev, i, a) == IF i > Len(ev) THEN a ELSE Run(fsm, ev, i + 1, One(fsm, ev[i], i, a))
@@ -66,9 +68,8 @@ With(rs, e) == IF rs = <<>> THEN rs ELSE <<[rs[1] EXCEPT !.at = <<e.sc, l, @>>]>
 Step ==
   /\ l <= Len(Trace)
   /\ l' = l + 1
-  /\ LET e == Trace[l]
-         a == Run(e.op = "fsm", e.ev, 1, Start(e))
-     IN /\ bad' = Note(bad, With(a.bad, e))
+  /\ \E e \in {Trace[l]} : \E a \in {Run(e.op = "fsm", e.ev, 1, Start(e))} :
+        /\ bad' = Note(bad, With(a.bad, e))
         /\ nbad' = nbad + Len(a.bad)
         /\ drift' = Note(drift, With(a.drift, e))
         /\ ndrift' = ndrift + Len(a.drift)
